@@ -188,6 +188,11 @@ STATEFUL = [
                  'start = (Def | Use)*\nDef = "type " >> (Name |> `define`) << ";"\n'
                  'Use = (Name where `lambda n: n in types`) << ";"\nName = /[a-z]+/\nignore /[ ]+/\n',
      ['int;', 'foo;', 'type foo; foo;', 'foo;', 'bar; type bar;', 'type bar;', 'bar;']),
+    # Python sections are compiled like ordinary module code, whoever compiles them: annotations are
+    # evaluated (no compiler flag leaks in from the caller), module attributes like __name__ exist
+    ('annotations', '```\ndef conv(x: int, pad: str = "0") -> int:\n    return int(x)\nCAST = conv.__annotations__["x"]\nwidth: int = 3\n'
+                    'class Box:\n    size: int = 2\n```\nstart = (/[0-9]+/ |> `CAST`)+ << Tail\nTail = `(width, Box.__annotations__["size"](1.5), isinstance(CAST, type))`\nignore / +/\n',
+     ['7', '12 3', '', 'x']),
     ('generation-counter', '```\nimport itertools\nfresh = itertools.count(1)\n```\nstart = ("x" >> `next(fresh)`)*\n',
      ['xx', 'x', '', 'xxx']),
 ]
@@ -197,20 +202,40 @@ def name_reuse(rec):
     """A name compiled with description A, then with a different description B, then with A again:
     a grammar that extends the name afterwards builds on A (and, in the other order, on B)."""
     import sys
-    descs = {'A': 'start = "a"+\nTail = "!"', 'B': 'start = "b"+\nTail = "?"'}
-    child = 'grammar %s extends %s\nstart = [super.start, Tail?]'
-    texts = ['a', 'aa!', 'b', 'bb?', 'a?', 'b!', '']
-    for order in (['A', 'B', 'A'], ['B', 'A', 'B'], ['A', 'A', 'B', 'A'], ['A', 'B', 'B']):
+    # (B differs from A in its rule set, its ignore declarations and the spelling of its start rule, so
+    # that a child built on a stale reading of the name is visibly different)
+    descs = {'A': 'start = "a"+\nTail = "!"', 'B': 'ignore " "\nStart = Item+\nItem = "b"\nTail = "?"\nMore = "x"'}
+    child = 'grammar %s extends %s\nTop = [super.Tail, Tail?]\nTail = "+" | super.Tail'
+    texts = ['a', 'aa!', 'b', 'bb?', 'a?', 'b!', '', 'b b', 'bb ?', 'a a', ' b']
+    # 'c' = a (throw-away) grammar extending the name is compiled at that point; 'F' / 'G' = a Grammar()
+    # call under the name that fails after its description has been read (raising Python section /
+    # reference to an unknown parent): the installed module stays what it was
+    failing = {'F': '```\nraise ValueError("no")\n```\nstart = "z"+\nTail = "~"', 'G': 'start = "z"+\nTail = `undefined_name_xyz`\n```\nraise KeyError("k")\n```'}
+    for order in (['A', 'B', 'A'], ['B', 'A', 'B'], ['A', 'A', 'B', 'A'], ['A', 'B', 'B'], ['A', 'c', 'B'], ['A', 'c', 'B', 'c', 'A'], ['B', 'c', 'c', 'A'],
+                  ['A', 'F'], ['A', 'c', 'F'], ['B', 'G', 'c'], ['A', 'F', 'B', 'G']):
         name, cname = diff.unique_name('vt_c11n'), diff.unique_name('vt_c11c')
         ref_name, ref_cname = diff.unique_name('vt_c11rn'), diff.unique_name('vt_c11rc')
+        extra_names = []
         try:
             for k in order:
+                if k == 'c':
+                    tmp = diff.unique_name('vt_c11t')
+                    extra_names.append(tmp)
+                    observe.compile_grammar(child % (tmp, name))
+                    continue
+                if k in failing:
+                    r = observe.compile_grammar(with_name(failing[k], name))
+                    rec.count('failing_grammar_calls')
+                    if r[0] == 'ok':
+                        rec.note('a description meant to fail compiled: %s' % k)
+                    continue
                 r = observe.compile_grammar(with_name(descs[k], name))
                 if r[0] != 'ok':
                     rec.violation('name-reuse:grammar-error', 'Grammar()', dict(kind='name-reuse', order=order), 'module', r)
                     return
             got_g = observe.compile_grammar(child % (cname, name))
-            observe.compile_grammar(with_name(descs[order[-1]], ref_name))
+            last_ok = [k for k in order if k in descs][-1]
+            observe.compile_grammar(with_name(descs[last_ok], ref_name))
             want_g = observe.compile_grammar(child % (ref_cname, ref_name))
             if got_g[0] != 'ok' or want_g[0] != 'ok':
                 rec.violation('name-reuse:grammar-error', 'Grammar() of the extension', dict(kind='name-reuse', order=order), 'modules', (got_g[:2], want_g[:2]))
@@ -224,7 +249,7 @@ def name_reuse(rec):
                     rec.violation('name-reuse:extension-built-on-stale-module', 'extension of a re-used name vs extension of a fresh name',
                                   dict(kind='name-reuse', order=order, text_repr=repr(t)), want, got)
         finally:
-            for n in (name, cname, ref_name, ref_cname):
+            for n in [name, cname, ref_name, ref_cname] + extra_names:
                 sys.modules.pop(n, None)
 
 
